@@ -625,6 +625,46 @@ def _depends(fi: FunctionInfo, ret: ast.Return, local: str) -> bool:
 
 
 # --------------------------------------------------------------------------------------------------------------------
+def dictorder_pass(run: Run, pkg: Package, funcs: List[FunctionInfo]) -> int:
+    """R-DICTORDER: the values of a dictionary keyed by type id (masses, diameters, ...) turned into a positional array
+    (`np.array(list(d.values()))`, `np.fromiter(d.values(), ...)`) carry the dictionary's INSERTION order.  Looking entries up by
+    `type - 1`, or pairing them with separately sorted keys, silently assumes the caller wrote the keys in ascending order."""
+    n = 0
+    for fi in funcs:
+        ann = fi.param_annotations()
+        dflt = fi.defaults()
+        dict_names = {p for p in fi.params if "dict" in (ann.get(p) or "").lower() or isinstance(dflt.get(p), ast.Dict)}
+        dict_attrs = set()
+        if fi.cls is not None and "__init__" in fi.cls.methods:
+            init = fi.cls.methods["__init__"]
+            a2, d2 = init.param_annotations(), init.defaults()
+            ip = {p for p in init.params if "dict" in (a2.get(p) or "").lower() or isinstance(d2.get(p), ast.Dict)}
+            for st in ast.walk(init.node):
+                if isinstance(st, ast.Assign) and isinstance(st.value, ast.Name) and st.value.id in ip:
+                    dict_attrs |= {t.attr for t in st.targets if is_self_attr(t)}
+        par = parents_map(fi.node)
+        for c in ast.walk(fi.node):
+            if not (isinstance(c, ast.Call) and isinstance(c.func, ast.Attribute) and c.func.attr == "values" and not c.args):
+                continue
+            base = c.func.value
+            if not ((isinstance(base, ast.Name) and base.id in dict_names) or (is_self_attr(base) and base.attr in dict_attrs)):
+                continue
+            n += 1
+            anc = list(_ancestors(c, par, fi.node))
+            wrappers = [a for a in anc if isinstance(a, ast.Call) and isinstance(a.func, (ast.Name, ast.Attribute))]
+            names = [w.func.id if isinstance(w.func, ast.Name) else w.func.attr for w in wrappers]
+            if any(nm in ("sorted", "zip", "dict", "max", "min", "sum", "set", "len", "all", "any") for nm in names[:3]):
+                continue            # order-free reductions, or paired with the keys in the same order
+            if not any(nm in ("array", "asarray", "fromiter", "list", "tuple") for nm in names[:3]):
+                continue
+            run.ob("R-DICTORDER", short(fi.qual), f"{ast.unparse(base)}.values()@{norm_stmt(_stmt_of(c, par))[:60]}", False,
+                   "entries of a dictionary keyed by type id are looked up by key",
+                   f"{ast.unparse(base)}.values() is turned into a positional array: position k holds the k-th INSERTED value, not the value of type k + 1",
+                   witness=f"{ast.unparse(base)} = {{2: a, 1: b}} (same mapping as {{1: b, 2: a}}): type 1 receives a and type 2 receives b", loc=fi.loc(c), sound=True)
+    return n
+
+
+# --------------------------------------------------------------------------------------------------------------------
 def falsy_pass(run: Run, pkg: Package, funcs: List[FunctionInfo]) -> int:
     """R-FALSY: `p = p or <default>` (or `if not p: p = <default>`) treats every falsy argument as "not given".  When a call site
     inside the package passes a falsy constant (0, 0.0, False, "") for p on purpose, the callee silently replaces it."""
@@ -765,5 +805,6 @@ def state_pass(run: Run, pkg: Package, everything: bool = False) -> None:
         "stored_fields": statepath_pass(run, pkg, funcs),
         "usecols_reads": usecols_pass(run, pkg, funcs),
         "falsy_defaults": falsy_pass(run, pkg, funcs),
+        "dict_value_arrays": dictorder_pass(run, pkg, funcs),
     }
     run.extra["state_rules"] = {"functions": len(funcs), **counts}
